@@ -2,7 +2,8 @@
 //! this module. Everything here is thread local, so the engine's own threads are unaffected
 //! unless a harness installs a clock / capture buffer on that very thread.
 #![allow(dead_code)]
-use crate::board::BoardState;
+use crate::board::{BoardState, PieceColor, PieceKind, Point, Square};
+use crate::draw_table::DrawTable;
 use std::cell::RefCell;
 
 pub struct Clock {
@@ -109,4 +110,116 @@ pub fn log_order(site: u8, moves: &[BoardState]) {
             v.push((site, moves.iter().map(move_id).collect()));
         }
     });
+}
+
+// ---- H5: state trace of the UCI loop (only with WALLEYE_VERIF_TRACE in the environment) ----
+
+fn trace_pt(p: Point) -> String {
+    if (2..10).contains(&p.0) && (2..10).contains(&p.1) {
+        format!("{}", p)
+    } else {
+        format!("({},{})", p.0, p.1)
+    }
+}
+
+fn trace_placement(b: &BoardState) -> String {
+    let mut out = String::new();
+    for r in 2..10 {
+        let mut run = 0;
+        for c in 2..10 {
+            let ch = match b.board[r][c] {
+                Square::Empty => '.',
+                Square::Boundary => '#',
+                Square::Full(p) => {
+                    let c = match p.kind {
+                        PieceKind::Pawn => 'p',
+                        PieceKind::Knight => 'n',
+                        PieceKind::Bishop => 'b',
+                        PieceKind::Rook => 'r',
+                        PieceKind::Queen => 'q',
+                        PieceKind::King => 'k',
+                    };
+                    if p.color == PieceColor::White {
+                        c.to_ascii_uppercase()
+                    } else {
+                        c
+                    }
+                }
+            };
+            if ch == '.' {
+                run += 1;
+            } else {
+                if run > 0 {
+                    out.push_str(&run.to_string());
+                    run = 0;
+                }
+                out.push(ch);
+            }
+        }
+        if run > 0 {
+            out.push_str(&run.to_string());
+        }
+        if r != 9 {
+            out.push('/');
+        }
+    }
+    out
+}
+
+/// placement side rights ep wk bk key lastmove promo order_heuristic tbl=<sorted key:count>
+pub fn trace_state(b: &BoardState, t: &DrawTable) {
+    if std::env::var_os("WALLEYE_VERIF_TRACE").is_none() {
+        return;
+    }
+    let mut rights = String::new();
+    if b.white_king_side_castle {
+        rights.push('K');
+    }
+    if b.white_queen_side_castle {
+        rights.push('Q');
+    }
+    if b.black_king_side_castle {
+        rights.push('k');
+    }
+    if b.black_queen_side_castle {
+        rights.push('q');
+    }
+    if rights.is_empty() {
+        rights.push('-');
+    }
+    let lm = match b.last_move {
+        None => "-".to_string(),
+        Some((f, t)) => format!("{}>{}", trace_pt(f), trace_pt(t)),
+    };
+    let pp = match b.pawn_promotion {
+        None => "-".to_string(),
+        Some(p) => format!(
+            "{}{}",
+            if p.color == PieceColor::White { 'w' } else { 'b' },
+            p.kind.alg()
+        ),
+    };
+    let mut v: Vec<(u64, u8)> = t.table.iter().map(|(k, v)| (*k, *v)).filter(|(_, v)| *v != 0).collect();
+    v.sort();
+    let tbl = if v.is_empty() {
+        "-".to_string()
+    } else {
+        v.iter().map(|(k, c)| format!("{:016x}:{}", k, c)).collect::<Vec<_>>().join(",")
+    };
+    println!(
+        "verifstate {} {} {} {} {},{} {},{} {:016x} {} {} {} tbl={}",
+        trace_placement(b),
+        if b.to_move == PieceColor::White { 'w' } else { 'b' },
+        rights,
+        b.pawn_double_move.map_or("-".to_string(), trace_pt),
+        b.white_king_location.0,
+        b.white_king_location.1,
+        b.black_king_location.0,
+        b.black_king_location.1,
+        b.zobrist_key,
+        lm,
+        pp,
+        b.order_heuristic,
+        tbl
+    );
 }
